@@ -31,6 +31,13 @@ def anchors():
         for f in p["anchors"]["files"]:
             if f.endswith(".py"):
                 m.setdefault(os.path.basename(f), []).append(p["id"])
+    # files whose effect is visible through checks that do not list them as anchors
+    m.setdefault("ligand.py", []).insert(0, "C01")
+    m.setdefault("protonate.py", []).insert(0, "C01")
+    for f in ("conformation_container.py", "group.py"):
+        for pid in ("C04", "C05", "C16"):
+            if pid not in m.setdefault(f, []):
+                m[f].append(pid)
     return m
 
 
